@@ -536,5 +536,8 @@ func (h *NativeKeyHashMapIterator[K]) NextValue() (value.Value, value.Value) {
 }
 
 func (h *NativeKeyHashMapIterator[K]) Reset() {
+	// start over on the current content of the collection
 	h.index = 0
+	h.version = h.HashMap.version
+	h.captureSnapshot()
 }
